@@ -80,8 +80,8 @@ type enumOpts struct {
 	splices     int
 	swaps       int
 	idxPerTable int
-	metaFlip    int // every n-th bit of the sidecar
-	metaTrunc   int // every n-th truncation length of the sidecar
+	metaFlip    int  // every n-th bit of the sidecar
+	metaTrunc   int  // every n-th truncation length of the sidecar
 	light       bool // fewer hostile values per field / length prefix
 	lenEvery    int  // every n-th length-prefixed region / TOC entry gets the length corruptions
 }
